@@ -267,10 +267,18 @@ func buildWith(regs []opReg, m Mode) (*parser.Builder, error) {
 }
 
 func checkCustomTree(t *fw.T, regs []opReg, tree *cnode, clause string, keyLevel int) {
+	checkCustomTreeIC(t, regs, tree, clause, keyLevel, nil)
+}
+
+// checkCustomTreeIC: with coin != nil the builder additionally carries expression interceptors (a plugin next to the
+// one that registered the operators) which, per step, pass through or parse the prefix themselves and let the parser
+// continue (ParsePrefixExpression / the specific public parse function + ParseRemainingExpression). Grouping of
+// registered operators is a property of the text, not of who parses the operands.
+func checkCustomTreeIC(t *fw.T, regs []opReg, tree *cnode, clause string, keyLevel int, coin *rand.Rand) {
 	src := tree.String()
 	want := "(program (expr " + tree.S() + "))"
 	wit := func() map[string]any {
-		return map[string]any{"source": src, "registered": fmt.Sprint(regs), "expected_tree": want}
+		return map[string]any{"source": src, "registered": fmt.Sprint(regs), "expected_tree": want, "with_expression_interceptors": coin != nil}
 	}
 	var got string
 	var errs []parser.ParserError
@@ -278,6 +286,20 @@ func checkCustomTree(t *fw.T, regs []opReg, tree *cnode, clause string, keyLevel
 		pb, err := buildWith(regs, Mode{})
 		if err != nil {
 			panic("registration refused: " + err.Error())
+		}
+		if coin != nil {
+			for i, k := 0, 1+coin.IntN(3); i < k; i++ {
+				pb.UseExpressionInterceptor(func(p *parser.Parser, next func() ast.Expression) ast.Expression {
+					switch coin.IntN(3) {
+					case 0:
+						return p.ParseRemainingExpression(p.ParsePrefixExpression())
+					case 1:
+						return p.ParseRemainingExpression(dispatchPrefix(p))
+					}
+					return next()
+				})
+			}
+			t.Count("texts_parsed_through_re-entrant_expression_interceptors", 1)
 		}
 		p := pb.Build(src)
 		prog, _ := p.ParseProgram()
@@ -289,6 +311,9 @@ func checkCustomTree(t *fw.T, regs []opReg, tree *cnode, clause string, keyLevel
 	}
 	t.Count("texts_parsed", 1)
 	key := fmt.Sprintf("level=%d", keyLevel)
+	if coin != nil {
+		key += "/with expression interceptors"
+	}
 	if len(errs) > 0 {
 		w := wit()
 		w["errors"] = errs
@@ -444,6 +469,7 @@ func runC05Random(t *fw.T) {
 		minL = 0
 	}
 	checkCustomTree(t, regs, tree, "mixed-tree-grouping", minL)
+	checkCustomTreeIC(t, regs, tree, "mixed-tree-grouping", minL, rand.New(rand.NewPCG(r.Uint64(), 5)))
 	t.Distinct(fmt.Sprint(regs) + tree.S())
 	if t.WantSample() && len(tree.String()) < 80 {
 		t.Sample(map[string]any{"stratum": "random", "registered": fmt.Sprint(regs), "source": tree.String(), "tree": tree.S()})
